@@ -111,7 +111,8 @@ Proof.
     pose proof (call_c12 (r_cfg r) (lookup r) (r_now r) (r_dealer r) s req opts proc args kw oracle Wd LOK) as CF.
     destruct (call _ _ _ _ _ _ _ _ _ _ _) as [d o0|o0|d callee' o0] eqn:Ecall.
     + cbn [snd]. intros Hin. exfalso. eapply No; [|exact Hin]. exact (proj2 CF).
-    + pose proof (leave_noinv r (s_id s)) as L. destruct (leave r (s_id s)) as [r1 o1]. cbn [snd] in *.
+    + cbv zeta. pose proof (leave_noinv (r_set_dealer r (call_abort_dealer (lookup r) (r_dealer r) s req opts proc oracle)) (s_id s)) as L.
+      destruct (leave _ (s_id s)) as [r1 o1]. cbn [snd] in *.
       intros Hin. exfalso. eapply No; [|exact Hin]. apply noinv_app; [exact (proj2 CF)|exact L].
     + destruct CF as (_ & (b0 & rid0 & det0 & Eo) & _).
       destruct (N.eqb_spec (s_id callee') meta_id) as [Em|Em].
